@@ -93,7 +93,7 @@ func recordPart(dr *driver, dir string) {
 		if problems := append(append(append(p1, p2...), p3...), p4...); len(problems) > 0 {
 			dr.res.Mismatch(abs.Mismatch{Sig: "part:trace malformed descriptor", Case: ev, Got: problems, Want: "well-formed descriptor"})
 		}
-		if corrupt > 0 && w.N+1 == corrupt {
+		if corruptTrace > 0 && w.N+1 == corruptTrace {
 			ev.Nil = !ev.Nil
 		}
 		if err := w.Write(ev); err != nil {
